@@ -1292,7 +1292,11 @@ class Quaternion(np.ndarray):
         q**a : numpy.ndarray
             Quaternion :math:`\\mathbf{q}` to the power of ``a``
         """
-        return np.e**(a*self.logarithm)
+        log_q = a*self.logarithm                # q^a = exp(a log(q)), with the quaternion exponential
+        t = np.linalg.norm(log_q[1:])
+        if t == 0.0:
+            return np.e**log_q[0]*np.array([1.0, 0.0, 0.0, 0.0])
+        return np.e**log_q[0]*np.array([np.cos(t), *(np.sin(t)*log_q[1:]/t)])
 
     def is_pure(self) -> bool:
         """
